@@ -171,6 +171,7 @@ func raceOne(m map[string]string) string {
 	scfg := raceCfg(seedDir, portBase)
 	lcfg := raceCfg(filepath.Join(root, "leech"), portBase+100)
 	lcfg.SpeedLimitDownload = 3000 // KB/s: the transfer lasts a couple of seconds
+	lcfg.RequestTimeout = 3 * time.Millisecond // snub timers fire all the time: their reports race with stops and closes
 	ss, err := torrent.NewSession(scfg)
 	if err != nil {
 		return "error:seeder:" + err.Error()
